@@ -1518,6 +1518,10 @@ class Gen:
                 elif A is not None:
                     ed.replace(outer["s"], A["s"], f"__str_slice_from({S}, ", ("rule", "R27"))
                     ed.replace(A["e"], outer["e"], ")", ("rule", "R27"))
+                elif B is not None:
+                    # `&S[..B]` is `&S[0..B]`
+                    ed.replace(outer["s"], B["s"], f"__str_slice({S}, 0, ", ("rule", "R27"))
+                    ed.replace(B["e"], outer["e"], ")", ("rule", "R27"))
                 else:
                     raise Inconclusive(f"unsupported construct: str range at {src.rel}:{src.line_of(n['s'])}")
                 self.fired("R27")
